@@ -24,10 +24,7 @@ def drn1_abcf(ctx, prog, cfg, rule="DRN1"):
     if f is None:
         return
     # (b) size := 0 (or := validated range start) dominates pointer creation and return; TRB first
-    stores = []
-    for b, i, st, is_term in f.positions(False):
-        if not is_term and st["k"] == "assign" and mir.place_has_deref(st["place"]) and mir.mem_var_of(st["place"]) == ("M", "size"):
-            stores.append((b, i, mir.strip_casts(f.rvalue_expr(st["rv"], b, i))))
+    stores = common.field_stores(f, "size")
     trb = f.calls_to(TRB, unwind=False)
     ctx.check(len(trb) == 1, rule, OVER, "b: validates through translate_range_bounds", f.loc,
               "Drain::over_range does not call translate_range_bounds exactly once (%d calls)" % len(trb),
